@@ -176,3 +176,104 @@ func LogOverlay(repo string, everyBlock bool) (map[string][]byte, int, error) {
 	}
 	return out, n, nil
 }
+
+// RestructureOverlay rewrites control structure without changing behaviour:
+//   - mode "negif": `if c { A } else { B }`  =>  `if !(c) { B } else { A }`
+//   - mode "guard": a trailing `if c { A }` of a for body  =>  `if !(c) { continue }; { A }`
+// Only statements that contain no other candidate are rewritten (edits never overlap).
+func RestructureOverlay(repo, mode string) (map[string][]byte, int, error) {
+	fset, pkgs, err := loadForRewrite(repo, false)
+	if err != nil {
+		return nil, 0, err
+	}
+	out := map[string][]byte{}
+	n := 0
+	for _, p := range pkgs {
+		for _, f := range p.Syntax {
+			name := fset.Position(f.Pos()).Filename
+			if strings.HasSuffix(name, "_test.go") {
+				continue
+			}
+			src, err := os.ReadFile(name)
+			if err != nil {
+				return nil, 0, err
+			}
+			off := func(pos token.Pos) int { return fset.Position(pos).Offset }
+			type edit struct {
+				from, to int
+				text     string
+			}
+			var cands []*ast.IfStmt
+			lastOfFor := map[*ast.IfStmt]bool{}
+			ast.Inspect(f, func(nd ast.Node) bool {
+				switch x := nd.(type) {
+				case *ast.ForStmt:
+					if l := x.Body.List; len(l) > 0 {
+						if is, ok := l[len(l)-1].(*ast.IfStmt); ok {
+							lastOfFor[is] = true
+						}
+					}
+				case *ast.RangeStmt:
+					if l := x.Body.List; len(l) > 0 {
+						if is, ok := l[len(l)-1].(*ast.IfStmt); ok {
+							lastOfFor[is] = true
+						}
+					}
+				}
+				return true
+			})
+			ast.Inspect(f, func(nd ast.Node) bool {
+				is, ok := nd.(*ast.IfStmt)
+				if !ok || is.Init != nil {
+					return true
+				}
+				switch mode {
+				case "negif":
+					if _, isBlock := is.Else.(*ast.BlockStmt); isBlock {
+						cands = append(cands, is)
+					}
+				case "guard":
+					if is.Else == nil && lastOfFor[is] {
+						cands = append(cands, is)
+					}
+				}
+				return true
+			})
+			contains := func(outer, inner *ast.IfStmt) bool {
+				return outer != inner && outer.Pos() <= inner.Pos() && inner.End() <= outer.End()
+			}
+			var edits []edit
+			for _, c := range cands {
+				leaf := true
+				for _, d := range cands {
+					if contains(c, d) {
+						leaf = false
+					}
+				}
+				if !leaf {
+					continue
+				}
+				cond := string(src[off(c.Cond.Pos()):off(c.Cond.End())])
+				body := string(src[off(c.Body.Pos()):off(c.Body.End())])
+				switch mode {
+				case "negif":
+					els := c.Else.(*ast.BlockStmt)
+					elsT := string(src[off(els.Pos()):off(els.End())])
+					edits = append(edits, edit{off(c.Pos()), off(c.End()), "if !(" + cond + ") " + elsT + " else " + body})
+				case "guard":
+					edits = append(edits, edit{off(c.Pos()), off(c.End()), "if !(" + cond + ") { continue }\n" + body})
+				}
+			}
+			if len(edits) == 0 {
+				continue
+			}
+			sort.Slice(edits, func(i, j int) bool { return edits[i].from > edits[j].from })
+			for _, e := range edits {
+				src = append(src[:e.from], append([]byte(e.text), src[e.to:]...)...)
+				n++
+			}
+			out[name] = src
+		}
+	}
+	return out, n, nil
+}
